@@ -228,6 +228,7 @@ def run_update(ck_ob, mod, label):
     n = 0
     style = {}
     entry_posn, iter_posn, relies = [], [], [False]
+    handover = {}
     seen = {"A": set(), "B": set(), "iter": {h: 0 for h in tops}, "exit": {h: set() for h in tops}}
     # entry paths (from the function entry) first: they determine what drives each block loop
     paths = sorted(paths, key=lambda p_: 0 if [e_ for e_ in p_.events if e_[0] == "class" and e_[1] == "start"] else 1)
@@ -322,6 +323,46 @@ def run_update(ck_ob, mod, label):
         cur, rem = ("hdp", ptrs[0].id), ("hd", ints[0].id)
         S0 = words_at(p, ST, 0, 4, True)
         K0 = words_at(p, ST, 16, 4, True)
+        if p.end[0] == "loop-entry" and p.end[1] in tops and p.end[1] != h0:
+            # from one block loop to the next (a loop taking several blocks per round, then the single-block loop): nothing happens in between
+            # and the next loop goes on with the same cursor and remaining length
+            p2, i2 = tops[p.end[1]]
+            ok_h = not pev and p.env.get(("init", p2[0].id)) == Lf.s(cur) and p.env.get(("init", i2[0].id)) == Lf.s(rem) \
+                and mode.words_eq(words_at(p, ST, 0, 8), S0 + K0) and posn_end == p.start_lfmem.get((ST, 48, 4), posn_end)
+            c("STREAM", ok_h, "loop-handover", "the next block loop continues with the same cursor and remaining length; nothing is compressed in between",
+              "between two block loops: cursor %s remaining %s, %d permutation call(s)" % (p.env.get(("init", p2[0].id)), p.env.get(("init", i2[0].id)), len(pev)))
+            handover[h0] = p.end[1]
+            style.setdefault(p.end[1], style.get(h0, ("rem",)))
+            n += 1
+            continue
+        if p.end[0] == "backedge" and style.get(h0, ("rem",))[0] != "count":
+            br_ = p.env.get(("back", ints[0].id))
+            adv_ = br_.add(Lf.s(rem), -1).const() if br_ is not None and not is_word(br_) else None
+            if adv_ is not None and adv_ < -16 and (-adv_) % 16 == 0 and -adv_ <= 256:
+                # several blocks per round: the consecutive 16-byte groups at the cursor, compressed in order on the chained value
+                nb_ = -adv_ // 16
+                seen["iter"][h0] += 1
+                S_, K_ = S0, K0
+                okall = len(pev) == 2 * nb_
+                c("CONSTR", okall, "bulk-permutations(%d)" % nb_, "%d compressions (2 permutation calls each) per round" % nb_, "%d permutation calls in a round that consumes %d bytes" % (len(pev), -adv_))
+                for j_ in range(nb_ if okall else 0):
+                    blk_ = [mode.inbyte(cur, 16 * j_ + i) for i in range(16)]
+                    r_ = check_compress_events(lambda rule, cond, cons, ok, bad, where=None, j_=j_: c(rule, cond, cons + "(block %d of %d)" % (j_ + 1, nb_), ok, bad, where), f, p, pev[2 * j_: 2 * j_ + 2], S_, K_, blk_, 0, "bulk")
+                    if not r_:
+                        okall = False
+                        break
+                    S_, K_ = r_
+                if okall:
+                    c("CONSTR", mode.words_eq(words_at(p, ST, 0, 8), S_ + K_), "bulk-result", "chaining value = (L', NOT R') after the last block of the round",
+                      "stored chaining value differs: %s" % mode.first_diff(words_at(p, ST, 0, 8), S_ + K_))
+                bc = p.env.get(("back", ptrs[0].id))
+                okg = any(cc[0] == "uge" and cc[2] and cc[1] == Lf({rem: 1, 1: adv_}) for cc in p.conds)
+                c("STREAM", okg, "bulk-guard", "%d blocks are taken only when at least %d bytes remain" % (nb_, -adv_), "loop guard is not 'remaining >= %d'" % -adv_)
+                c("STREAM", bc == Lf({cur: 1, 1: -adv_}) and br_ == Lf({rem: 1, 1: adv_}), "bulk-advance", "cursor += %d, remaining -= %d" % (-adv_, -adv_),
+                  "after a round cursor=%s remaining=%s: input skipped or re-read" % (bc, br_))
+                iter_posn.append(posn_end == p.start_lfmem.get((ST, 48, 4)) or posn_end == Lf.c(0))
+                n += 4
+                continue
         if p.end[0] == "backedge":
             seen["iter"][h0] += 1
             blk = [mode.inbyte(cur, i) for i in range(16)]
@@ -373,7 +414,7 @@ def run_update(ck_ob, mod, label):
     exact = {(pz, 16 - pz) for pz in range(1, 16)}
     # (an empty buffer may also take the short path - stash at position 0 without entering the block loop - which is the same machine)
     empty_short = {(0, ln) for ln in range(16)}
-    if seen["B"] != set(range(16)) or not (wantA <= seen["A"] <= wantA | exact | empty_short) or any(seen["exit"][h] != set(range(16)) or seen["iter"][h] < 1 for h in tops):
+    if seen["B"] != set(range(16)) or not (wantA <= seen["A"] <= wantA | exact | empty_short) or any((seen["exit"][h] != set(range(16)) and h not in handover) or (h in handover and seen["exit"][h]) or seen["iter"][h] < 1 for h in tops):
         raise Broken("tinyjambu_hash_update: the path classes found do not partition (buffer position, length) the way the stream machine is analysed "
                      "(entry %d/16, short %d/%d extra %s, tails %s iterations %s): unrecognised shape" % (len(seen["B"]), len(seen["A"] & wantA), len(wantA), sorted(seen["A"] - wantA)[:3], [sorted(seen["exit"][h]) for h in tops], [seen["iter"][h] for h in tops]))
     for pz, pe in entry_posn:
